@@ -2159,6 +2159,46 @@ func c10CellKind(f *ssa.Function, v ssa.Value, ro *c10Roles) (kind, fact string)
 		case "reflect.ValueOf":
 			return "alias", "cell is reflect.ValueOf(initialiser) itself: not a cell of this run (not addressable, shares the caller's value)"
 		}
+		// a helper of the module that builds the cell: classify what each of its returns hands back
+		if callee := cc.StaticCallee(); callee != nil && inModule(callee) && callee != f && len(callee.Blocks) > 0 && callee.Signature.Results().Len() == 1 {
+			kinds := map[string]bool{}
+			var facts []string
+			for _, b := range callee.Blocks {
+				for _, in := range b.Instrs {
+					ret, ok := in.(*ssa.Return)
+					if !ok || len(ret.Results) != 1 {
+						continue
+					}
+					for _, src := range c10StripPhi(ret.Results[0]) {
+						if c, ok := src.(*ssa.Call); ok && c.Common().StaticCallee() != nil && inModule(c.Common().StaticCallee()) {
+							return "unknown", "cell produced by a helper of " + ssaFuncName(callee) + ": nesting not followed"
+						}
+						k, fact := c10CellKind(callee, src, ro)
+						kinds[k] = true
+						facts = append(facts, fact)
+					}
+				}
+			}
+			switch {
+			case len(kinds) == 0:
+				return "unknown", "cell produced by " + c10CalleeName(cc) + ", which has no return"
+			case kinds["alias"]:
+				for i, fact := range facts {
+					if strings.HasPrefix(fact, "cell is reflect.ValueOf(initialiser)") || strings.HasPrefix(fact, "cell is a package-level") {
+						return "alias", "in " + ssaFuncName(callee) + ": " + facts[i]
+					}
+				}
+				return "alias", "a return of " + ssaFuncName(callee) + " aliases"
+			case kinds["unknown"]:
+				return "unknown", "cell produced by " + ssaFuncName(callee) + ", a return of which is not understood: " + strings.Join(facts, "; ")
+			case len(kinds) == 1:
+				for k := range kinds {
+					return k, "through " + ssaFuncName(callee) + ": " + facts[0]
+				}
+			}
+			sort.Strings(facts)
+			return "fresh", "through " + ssaFuncName(callee) + ", each return of which is a fresh cell or the target of a caller-supplied pointer: " + strings.Join(facts, "; ")
+		}
 		return "unknown", "cell produced by " + c10CalleeName(cc)
 	case *ssa.Field:
 		if fv := c10FieldOfValue(x); fv != nil && c10NamedOf(x.X.Type()) == ro.global {
